@@ -2,35 +2,47 @@ import TinkVerif.Gen.MutFacts
 /-!
 # C18 — regenerated mutation facts: classification
 
-`Gen/MutFacts.lean` is regenerated on every run from all non-test packages of /repo: every store
-through a method receiver (field, element of a field-held slice/map, through a local alias), every
-call of a mutating method on a receiver-held stateful object (`hash.Hash`, `cipher.Stream`,
-`cipher.BlockMode`, `io.Reader/Writer`, `bytes.Buffer`, `big.Int`, SHAKE), every store to a
-package-level variable outside `init` (also `otherpkg.Var = …`).
-
-Shared state by construction (facts `global-var`, `global-call`; their `owner` is the variable): every
-package-level variable whose type is or contains a `sync.Pool`, `sync.Map`, a mutex / `sync.Once`, an
-atomic or a channel, every struct field of such a type (`field-var`, owner = the struct type: state kept per
-object is shared by all goroutines using the object), and every method call on a package-level variable
-outside `init`. These are
-classified per *variable* (`allowedGlobals`): a new pool / cache / registry variable is a new,
-unclassified fact whatever function touches it. The current tree has NO `sync.Pool` at all (neither
-package-level nor in a struct): nothing is recycled between calls, streams or objects, so no `pool`
-variable is allow-listed.
-
-In-place rewriting of containers that other objects may hold (facts `recv-inplace-write`: `r.f[k] = v`,
-`delete(r.f, k)`, `clear(r.f)`, `copy(r.f, …)`, `maps.Copy(r.f, …)`, `slices.Delete(r.f, …)`, `sort.*(r.f)`,
-`append(r.f[:k], …)` on a map- or slice-typed receiver field, also through a local alias) and, for exactly
-those fields, every place where the field value is handed to other code without a copy (facts
-`recv-field-escape`: returned, stored into another object or a composite literal, passed to a call other
-than len/cap/Clone/…). These are classified one by one (`allowedFieldFacts`, exact match on package,
-function and text): a method that starts to rewrite a map it has already handed out — instead of
-replacing it — is a new fact even though its receiver type is an allow-listed builder.
+`Gen/MutFacts.lean` is regenerated on every run from all non-test packages of /repo. The extractor computes, by a
+fixpoint over the call graph of the whole module, a summary of every function: stores through its receiver (field,
+element of a field-held slice/map, through a local alias or a sub-object), calls of mutating methods on
+receiver-held stateful objects (`hash.Hash`, `cipher.Stream`, `cipher.BlockMode`, `io.Reader/Writer`, `bytes.Buffer`,
+`big.Int`, SHAKE), stores to package-level variables outside `init` (also `otherpkg.Var = …`). Summaries of helpers
+(`r.h(…)`, `h(r, …)`, `h(r.f)`, `r.f.m(…)`) are applied at their call sites, and a fact is the summary of an ENTRY
+POINT: an exported function, a method with an exported (or interface) name, a function whose value is used. Moving a
+store into a helper, renaming a local or a parameter, or inlining a helper leaves the fact set unchanged (`what` is
+canonical: field / type / package-level names, `recv`, positions `#i`; `info` — names, helper chain — is not compared).
+Functions only reachable from `init` (table fillers) have no facts: initialisation is not use.
 
 The property holds for this code base because primitives are immutable after construction (the
 `ReadOnly` hypothesis of `Props/C18.lean`).  Hence the expected fact set: *no* fact on any primitive
 type; the only receiver types and globals that are written after construction are the ones listed
 here, each with the reason it is not shared between goroutines by the API contract.
+
+Shared state by construction (facts `global-var`, `global-call`; their `owner` is the variable): every
+package-level variable whose type is or contains a `sync.Pool`, `sync.Map`, a mutex / `sync.Once`, an
+atomic or a channel, every struct field of such a type (`field-var`, owner = the struct type: state kept per
+object is shared by all goroutines using the object), and every method call on a package-level variable
+outside `init` — except on values of standard-library types that are immutable / concurrency-safe by
+documentation and used through read-only methods (`*base64.Encoding`, `*regexp.Regexp`, `*big.Int` with
+read-only methods, `elliptic.Curve`, errors, `binary.ByteOrder`): those are decided by TYPE and method set, not
+per variable. The rest is classified per *variable* (`allowedGlobals`): a new pool / cache / registry variable
+is a new, unclassified fact whatever function touches it. The current tree has NO `sync.Pool` at all (neither
+package-level nor in a struct): nothing is recycled between calls, streams or objects, so no `pool`
+variable is allow-listed.
+
+In-place rewriting of containers that other objects may hold (facts `recv-inplace-write`: `r.f[k] = v`,
+`delete(r.f, k)`, `clear(r.f)`, `copy(r.f, …)`, `maps.Copy(r.f, …)`, `slices.Delete(r.f, …)`, `sort.*(r.f)`,
+`append(r.f[:k], …)` on a map- or slice-typed receiver field, also through a local alias or a helper) and, for
+exactly those fields, every place where the field value is handed to other code without a copy (facts
+`recv-field-escape`: returned, stored into another object or a composite literal, passed to a callee that cannot
+be seen or that keeps / hands it on; read-only helpers of the module and read-only library functions do not
+count). These are classified one by one (`allowedFieldFacts`, exact match on package, entry point and canonical
+text): a method that starts to rewrite a map it has already handed out — instead of replacing it — is a new
+fact even though its receiver type is an allow-listed builder.
+
+An allowance that no longer has a fact is printed as a NOTE by the report and fails nothing. Loss of type
+information is guarded at the source: the extractor refuses (the regeneration fails) when a package of the module
+does not type-check or when no call site resolves to a function of the module.
 -/
 namespace TinkVerif.Gen.MutFacts
 
@@ -40,7 +52,7 @@ inductive Why
   | builder       -- explicit mutable builder/manager object documented as not thread-safe (keyset.Manager, config builder, MemReaderWriter)
   | construction  -- method only called while the owning object is being constructed, before it is shared
   | lockedGlobal  -- package-level registry written only under its mutex
-  | initOnly      -- package-level table filled by functions that are only called from `init`
+  | initOnly      -- package-level table filled by functions that are only called from `init` (such functions have no facts any more; kept for the record)
   | syncRegistry  -- registration API of a package-level registry backed by sync.Map / internal/syncmap (synchronised container)
   | syncContainer -- package-level registry variable of type *internal/syncmap.Map (a typed sync.Map): every access, read or write, goes
                   -- through the synchronised container; entries are immutable once stored (parsers, serializers, constructors, key managers)
@@ -85,15 +97,7 @@ def allowedOwners : List (String × String × Why) := [
   ("core/registry", "RegisterKMSClient", .lockedGlobal),
   ("core/registry", "ClearKMSClients", .lockedGlobal),
   ("internal/internalregistry", "RegisterMonitoringClient", .lockedGlobal),
-  ("internal/internalregistry", "ClearMonitoringClient", .lockedGlobal),
-  ("keyderivation/internal/keyderivers", "addAESGCMKeyDeriver", .initOnly),
-  ("keyderivation/internal/keyderivers", "addAESSIVKeyDeriver", .initOnly),
-  ("keyderivation/internal/keyderivers", "addHKDFPRFKeyDeriver", .initOnly),
-  ("keyderivation/internal/keyderivers", "addHMACKeyDeriver", .initOnly),
-  ("keyderivation/internal/keyderivers", "addHMACPRFKeyDeriver", .initOnly),
-  ("keyderivation/internal/keyderivers", "addSignatureED25519KeyDeriver", .initOnly),
-  ("keyderivation/internal/keyderivers", "addStreamingAEADAESGCMHKDFKeyDeriver", .initOnly),
-  ("keyderivation/internal/keyderivers", "addXChaCha20Poly1305KeyDeriver", .initOnly)
+  ("internal/internalregistry", "ClearMonitoringClient", .lockedGlobal)
 ]
 
 /-- (package, package-level variable) of synchronisation / container type, or receiving method calls outside init, and why
@@ -116,26 +120,24 @@ def allowedGlobals : List (String × String × Why) := [
 def allowedFieldFacts : List (String × String × String × String × Why) := [
   -- PrefixMap: filled by Insert while the wrapper primitive is constructed; afterwards only read (the iterator gets the bucket)
   ("internal/prefixmap", "PrefixMap.Insert", "recv-inplace-write", "items : index-store", .beforeShared),
-  ("internal/prefixmap", "PrefixMap.PrimitivesMatchingPrefix", "recv-field-escape", "items : stored-into Iterator[P]{}", .beforeShared),
+  ("internal/prefixmap", "PrefixMap.PrimitivesMatchingPrefix", "recv-field-escape", "items : stored-into Iterator.fiveBytePrefixedPrimitives", .beforeShared),
+  ("internal/prefixmap", "PrefixMap.PrimitivesMatchingPrefix", "recv-field-escape", "items : stored-into Iterator.rawPrimitives", .beforeShared),
+  -- config.Builder: registration while the configuration is built
+  ("internal/config", "Builder.RegisterPrimitiveConstructor", "recv-inplace-write", "config.primitiveConstructors : index-store", .builder),
   -- keyset.Manager: unavailableKeyIDs never leaves the manager; entries is copied entry by entry in Handle()
+  ("keyset", "Manager.Add", "recv-inplace-write", "unavailableKeyIDs : index-store", .builder),
   ("keyset", "Manager.AddKeyWithOpts", "recv-inplace-write", "unavailableKeyIDs : index-store", .builder),
-  ("keyset", "Manager.newRandomKeyID", "recv-inplace-write", "unavailableKeyIDs : index-store", .builder),
   ("keyset", "Manager.Delete", "recv-inplace-write", "entries : slices.Delete", .builder),
-  ("keyset", "Manager.Delete", "recv-field-escape", "entries : passed-to slices.Delete", .ownGrowth),
-  ("keyset", "Manager.Delete", "recv-field-escape", "entries : passed-to findEntry", .readOnlyHelper),
-  ("keyset", "Manager.Disable", "recv-field-escape", "entries : passed-to findEntry", .readOnlyHelper),
-  ("keyset", "Manager.Enable", "recv-field-escape", "entries : passed-to findEntry", .readOnlyHelper),
-  ("keyset", "Manager.SetPrimary", "recv-field-escape", "entries : passed-to findEntry", .readOnlyHelper),
   -- noncebased Reader / Writer: the segment buffers are allocated by NewReader / NewWriter for this one stream
   ("streamingaead/subtle/noncebased", "Reader.Read", "recv-inplace-write", "ciphertext : index-store", .ownScratch),
   ("streamingaead/subtle/noncebased", "Reader.Read", "recv-field-escape", "ciphertext : passed-to io.ReadFull", .ownScratch),
-  ("streamingaead/subtle/noncebased", "Reader.Read", "recv-field-escape", "ciphertext : passed-to r.segmentDecrypter.DecryptSegment", .ownScratch),
-  ("streamingaead/subtle/noncebased", "Reader.Read", "recv-field-escape", "ciphertext : passed-to r.segmentDecrypterWithDst.DecryptSegmentWithDst", .ownScratch),
+  ("streamingaead/subtle/noncebased", "Reader.Read", "recv-field-escape", "ciphertext : passed-to recv.segmentDecrypter.DecryptSegment", .ownScratch),
+  ("streamingaead/subtle/noncebased", "Reader.Read", "recv-field-escape", "ciphertext : passed-to recv.segmentDecrypterWithDst.DecryptSegmentWithDst", .ownScratch),
   ("streamingaead/subtle/noncebased", "Writer.Write", "recv-inplace-write", "plaintext : copy", .ownScratch),
-  ("streamingaead/subtle/noncebased", "Writer.Write", "recv-field-escape", "plaintext : passed-to w.segmentEncrypter.EncryptSegment", .ownScratch),
-  ("streamingaead/subtle/noncebased", "Writer.Write", "recv-field-escape", "plaintext : passed-to w.segmentEncrypterWithDst.EncryptSegmentWithDst", .ownScratch),
-  ("streamingaead/subtle/noncebased", "Writer.Close", "recv-field-escape", "plaintext : passed-to w.segmentEncrypter.EncryptSegment", .ownScratch),
-  ("streamingaead/subtle/noncebased", "Writer.Close", "recv-field-escape", "plaintext : passed-to w.segmentEncrypterWithDst.EncryptSegmentWithDst", .ownScratch)
+  ("streamingaead/subtle/noncebased", "Writer.Write", "recv-field-escape", "plaintext : passed-to recv.segmentEncrypter.EncryptSegment", .ownScratch),
+  ("streamingaead/subtle/noncebased", "Writer.Write", "recv-field-escape", "plaintext : passed-to recv.segmentEncrypterWithDst.EncryptSegmentWithDst", .ownScratch),
+  ("streamingaead/subtle/noncebased", "Writer.Close", "recv-field-escape", "plaintext : passed-to recv.segmentEncrypter.EncryptSegment", .ownScratch),
+  ("streamingaead/subtle/noncebased", "Writer.Close", "recv-field-escape", "plaintext : passed-to recv.segmentEncrypterWithDst.EncryptSegmentWithDst", .ownScratch)
 ]
 
 def isGlobalKind (k : String) : Bool := k == "global-var" || k == "global-call" || k == "field-var"
@@ -147,6 +149,14 @@ def classified (f : Fact) : Bool :=
   else allowedOwners.any fun (pkg, owner, _) => pkg == f.pkg && owner == f.owner
 
 def unexpected : List Fact := facts.filter fun f => !classified f
+
+/-- allowances without a fact (informational: printed by the report as NOTE, never a failure) -/
+def staleOwners : List (String × String × Why) :=
+  allowedOwners.filter fun (pkg, owner, _) => !facts.any fun f => !isGlobalKind f.kind && !isFieldKind f.kind && f.pkg == pkg && f.owner == owner
+def staleGlobals : List (String × String × Why) :=
+  allowedGlobals.filter fun (pkg, v, _) => !facts.any fun f => isGlobalKind f.kind && f.pkg == pkg && f.owner == v
+def staleFieldFacts : List (String × String × String × String × Why) :=
+  allowedFieldFacts.filter fun (pkg, fn, kind, what, _) => !facts.any fun f => f.pkg == pkg && f.fn == fn && f.kind == kind && f.what == what
 
 /-- variables of pool type (recycled memory shared by every user of the package) -/
 def pools : List Fact := facts.filter fun f => (f.kind == "global-var" && f.what.startsWith "pool") || (f.kind == "field-var" && (f.what.splitOn " : ").contains "pool")
